@@ -1,7 +1,6 @@
-CONSTANTS Names = {}  Configs = {}  Strides = {}  MaxLen = 0
+CONSTANTS RT = 0  N = 0  MaxGap = 0
 CONSTANT KnownDeviations = ${KnownDeviations}
 SPECIFICATION TraceSpec
 CONSTRAINT HW
-INVARIANTS Inv_Answer ExcludeWins EmptyIncludeAll
 POSTCONDITION Accepted
 CHECK_DEADLOCK FALSE
